@@ -13,6 +13,43 @@ import (
 	"strings"
 )
 
+
+// intBinders returns the bound variables of a quantifier node if all of them are of sort Int.
+func intBinders(n *sx) ([]string, bool) {
+	if len(n.list) != 3 || len(n.list[1].list) == 0 || len(n.list[1].list) > 2 {
+		return nil, false
+	}
+	var vs []string
+	for _, b := range n.list[1].list {
+		if len(b.list) != 2 || b.list[1].atom != "Int" {
+			return nil, false
+		}
+		vs = append(vs, b.list[0].atom)
+	}
+	return vs, true
+}
+
+// tuples enumerates the k-tuples over terms (k is 1 or 2; for pairs the number of terms is capped).
+func tuples(terms []string, k int) [][]string {
+	if k == 1 {
+		var out [][]string
+		for _, t := range terms {
+			out = append(out, []string{t})
+		}
+		return out
+	}
+	if len(terms) > 9 {
+		terms = terms[:9]
+	}
+	var out [][]string
+	for _, a := range terms {
+		for _, b := range terms {
+			out = append(out, []string{a, b})
+		}
+	}
+	return out
+}
+
 // replaceIntForalls returns the formula with every positively occurring (forall ((x Int)) body)
 // replaced by the conjunction of body[x:=t] for t in terms. ok=false if nothing was replaced.
 func replaceIntForalls(n *sx, positive bool, terms []string) (string, bool) {
@@ -25,16 +62,26 @@ func replaceIntForalls(n *sx, positive bool, terms []string) (string, bool) {
 	head := n.list[0].atom
 	switch head {
 	case "forall":
-		if positive && len(n.list) == 3 && len(n.list[1].list) == 1 && len(n.list[1].list[0].list) == 2 && n.list[1].list[0].list[1].atom == "Int" {
-			v := n.list[1].list[0].list[0].atom
+		if vs, ok := intBinders(n); positive && ok {
 			body := n.list[2]
 			if body.list != nil && len(body.list) >= 2 && body.list[0].atom == "!" {
 				body = body.list[1]
 			}
 			bs := body.String()
 			var insts []string
-			for _, t := range terms {
-				insts = append(insts, substSym(bs, v, t))
+			for _, tu := range tuples(terms, len(vs)) {
+				inst := bs
+				// simultaneous substitution: first to placeholders (a term may mention a bound name)
+				for i, v := range vs {
+					inst = substSym(inst, v, "q!!"+string(rune('a'+i)))
+				}
+				for i := range vs {
+					inst = substSym(inst, "q!!"+string(rune('a'+i)), tu[i])
+				}
+				insts = append(insts, inst)
+			}
+			if len(insts) == 0 {
+				return n.String(), false
 			}
 			if len(insts) == 1 {
 				return insts[0], true
@@ -128,7 +175,7 @@ func replaceIntExists(n *sx, positive bool, terms []string) (string, bool) {
 func (g *Gen) instantiateContext(terms []string) []string {
 	var out []string
 	for _, l := range g.lines {
-		if !strings.HasPrefix(l, "(assert ") || !strings.Contains(l, "(forall ((") || !strings.Contains(l, " Int))") {
+		if !strings.HasPrefix(l, "(assert ") || !strings.Contains(l, "(forall ((") || !strings.Contains(l, " Int)") {
 			continue
 		}
 		if k := strings.LastIndex(l, " ; @loop:"); k > 0 {
@@ -160,16 +207,19 @@ func (g *Gen) skolemiseGoal(formula string) (goal string, decls []string, terms 
 		}
 		switch n.list[0].atom {
 		case "forall":
-			if positive && len(n.list) == 3 && len(n.list[1].list) == 1 && len(n.list[1].list[0].list) == 2 && n.list[1].list[0].list[1].atom == "Int" {
-				v := n.list[1].list[0].list[0].atom
+			if vs, ok := intBinders(n); positive && ok {
 				body := n.list[2]
 				if body.list != nil && len(body.list) >= 2 && body.list[0].atom == "!" {
 					body = body.list[1]
 				}
-				sk := g.fresh("sk")
-				decls = append(decls, "(declare-const "+sk+" Int)")
-				terms = append(terms, sk)
-				return substSym(body.String(), v, sk)
+				bs := body.String()
+				for _, v := range vs {
+					sk := g.fresh("sk")
+					decls = append(decls, "(declare-const "+sk+" Int)")
+					terms = append(terms, sk)
+					bs = substSym(bs, v, sk)
+				}
+				return bs
 			}
 			return n.String()
 		case "=>":
@@ -187,4 +237,41 @@ func (g *Gen) skolemiseGoal(formula string) (goal string, decls []string, terms 
 	}
 	goal = rec(xs[0], true)
 	return goal, decls, terms, len(terms) > 0
+}
+
+// hintAntecedents: in a goal of the form (=> A B) (possibly nested in the consequent) the integer-quantified
+// hypotheses inside A are joined with their instances at the given terms: (=> (and A A[inst]) B). A implies its
+// instances, so the goal is equivalent; the solver just no longer has to find the instances by E-matching.
+func hintAntecedents(goal string, terms []string) string {
+	xs := parseSx(goal)
+	if len(xs) != 1 {
+		return goal
+	}
+	var rec func(n *sx) string
+	rec = func(n *sx) string {
+		if n.list == nil || len(n.list) == 0 {
+			return n.String()
+		}
+		switch n.list[0].atom {
+		case "=>":
+			if len(n.list) == 3 {
+				a := n.list[1]
+				as := a.String()
+				if strings.Contains(as, "(forall ((") {
+					if inst, ok := replaceIntForalls(a, true, terms); ok {
+						as = "(and " + as + " " + inst + ")"
+					}
+				}
+				return "(=> " + as + " " + rec(n.list[2]) + ")"
+			}
+		case "and":
+			var parts []string
+			for _, c := range n.list[1:] {
+				parts = append(parts, rec(c))
+			}
+			return "(and " + strings.Join(parts, " ") + ")"
+		}
+		return n.String()
+	}
+	return rec(xs[0])
 }
